@@ -397,6 +397,17 @@ func dropPhi(t string) string {
 // normSlot: w[:f][~x] with f possibly a decision expression
 func normSlot(t string) string {
 	t = dropPhi(t)
+	// a constant width written symbolically: var(const:16) is 16
+	if strings.HasPrefix(t, "var(const:") {
+		j := len("var(const:")
+		k := j
+		for k < len(t) && t[k] >= '0' && t[k] <= '9' {
+			k++
+		}
+		if k > j && k < len(t) && t[k] == ')' {
+			t = t[j:k] + t[k+1:]
+		}
+	}
 	i := splitTop(t, ":")
 	if i < 0 || !strings.Contains(t, "}?[") {
 		return t
